@@ -5,7 +5,14 @@ PROP = "C03"
 
 
 def main():
-    return G.main(PROP, dict(verus_units=[("renumber_state", 6)],
+    return G.main(PROP, dict(verus_units=[("renumber_state", 6), ("simplify_remap", 17)],
                              trusted=G.COMMON_TRUSTED + ["Verus unit renumber_state: assumed spec of [T]::binary_search; derive(Ord) on the one-field StateIdx orders by the field (axiom); "
-                                                         "that CgCtx::new builds a strictly increasing inlined_states vector is an iterator chain and is NOT verified (precondition)"],
-                             assumptions=G.COMMON_ASSUMPTIONS))
+                                                         "that CgCtx::new builds a strictly increasing inlined_states vector is an iterator chain and is NOT verified (precondition)",
+                                                         "Verus unit simplify_remap (rule B1: three blocks of dfa/simplify.rs::simplify verified as function bodies under template-supplied headers): the loop "
+                                                         "headers / the closure head themselves, the order-preserving iterator chains (into_state_indices = into_iter().enumerate(); "
+                                                         "non_empty_states.into_iter().map().collect()) and the per-field mapping of the surviving states are NOT verified; assumed spec of "
+                                                         "[T]::binary_search_by (with comparator totality); derive(Ord) on StateIdx (axiom)"],
+                             assumptions=G.COMMON_ASSUMPTIONS + [
+                                 "proved for dfa/simplify.rs (unit simplify_remap): a state is removed only if it has no transition of any kind and is not a rule-set entry state; the removed list stays sorted; "
+                                 "every rule-set entry index and every transition target to a surviving state is renumbered to index - (removed states below it), which is proved to be the number of surviving "
+                                 "states before it (lemma_renumbering_is_position, injective: lemma_renumbering_injective); a target that was removed becomes Accept with the removed state's list"]))
